@@ -178,6 +178,29 @@ Proof.
   split; [exact (diffs_fitb_seam _ _ _ _ Dx)|exact (diffs_fitb_seam _ _ _ _ Dy)].
 Qed.
 
+(* every point of every contour of an emitted outline fits: the coordinate check looks at
+   all points, whatever their kind *)
+Lemma emit_points_fit : forall p cs o, simple_glyph p cs = Emit o ->
+  forall c q, In c cs -> In q c -> pt_fitsb q = true.
+Proof.
+  intros p cs o H c q Hc Hq. destruct cs as [|c0 cs]; [contradiction|].
+  assert (c0 :: cs <> []) as Hne by discriminate.
+  pose proof (simple_glyph_emit_checks _ _ _ Hne H) as K.
+  destruct (outline_checks_split _ K) as [C _]. unfold coords_fitb in C.
+  rewrite forallb_forall in C. specialize (C c Hc). rewrite forallb_forall in C. now apply C.
+Qed.
+
+(* the same for contours whose points carry their kind (true = on the curve, false = an
+   off-curve control point): the kind is irrelevant, control points are checked too *)
+Lemma emit_flagged_points_fit : forall p (fcs : list (list (pt * bool))) o,
+  simple_glyph p (map (map fst) fcs) = Emit o ->
+  forall fc q on, In fc fcs -> In (q, on) fc -> pt_fitsb q = true.
+Proof.
+  intros p fcs o H fc q on Hc Hq. eapply emit_points_fit; [exact H| |].
+  - apply in_map. exact Hc.
+  - change q with (fst (q, on)). apply in_map. exact Hq.
+Qed.
+
 (* an outline that glyf cannot hold is refused by both profiles *)
 Lemma simple_glyph_unfit_rejected : forall p cs, cs <> [] -> outline_checksb cs = false -> emitted (simple_glyph p cs) = false.
 Proof.
